@@ -57,4 +57,23 @@ theorem doub_entry_numbers (a : FArr) (scis : List Sci) (hs : ∀ s ∈ scis, Sc
   simp only [ht, reduceCtorEq, if_false, hnn, Int.toNat_natCast, hsz, hb]
   exact hp
 
+
+/-- **REAL array inside a file** (ECL flavour). -/
+theorem real_entry_numbers (a : FArr) (scis : List Sci) (hs : ∀ s ∈ scis, SciOk 7 s ∧ s.exp.natAbs < 98)
+    (ht : a.t = .real) (hf : a.fields = scis.map fun s => realField (eclReal s)) (rest : List FArr) (pos : Nat) :
+    ∃ toks, loadEntry ⟨a.name, (a.size : Int), a.t,
+        padTo (a.body.length + 1) ((a.body ++ encodeFmtFile rest).take (a.body.length + 1)), pos⟩ =
+          some (.toks toks) ∧
+      toks.map tokenNumber = scis.map sciNumberReal := by
+  rw [padTo_take_eq]
+  have hb : a.body = numericBody .real (scis.map fun s => realField (eclReal s)) := by
+    unfold FArr.body; rw [ht, hf]
+  have hsz : a.size = scis.length := by unfold FArr.size; rw [ht, hf, List.length_map]
+  obtain ⟨toks, hp, hn⟩ := real_array_numbers scis hs _ (file_tail_plain rest)
+  refine ⟨toks, ?_, hn⟩
+  unfold EclFmt.loadEntry
+  have hnn : ¬ ((a.size : Int) < 0) := by omega
+  simp only [ht, reduceCtorEq, if_false, hnn, Int.toNat_natCast, hsz, hb]
+  exact hp
+
 end OpmVerif.FmtReal
